@@ -287,6 +287,20 @@ pub struct Ctx {
     evals_total: u64,
 }
 
+/// VERIF_SCALE (0 < s <= 1): fraction of the generated cases to run (used by the debug-profile
+/// replica of the thorough tier); 1 when unset.
+pub fn env_scale() -> f64 {
+    std::env::var("VERIF_SCALE").ok().and_then(|s| s.parse::<f64>().ok()).filter(|s| *s > 0.0 && *s <= 1.0).unwrap_or(1.0)
+}
+pub fn scaled(n: u64) -> u64 {
+    let s = env_scale();
+    if s >= 1.0 {
+        n
+    } else {
+        ((n as f64 * s).ceil() as u64).max(1).min(n.max(1))
+    }
+}
+
 pub fn env_seed() -> u64 {
     std::env::var("VERIF_SEED")
         .ok()
@@ -510,9 +524,10 @@ impl Ctx {
         B: Fn(&S::Value) -> Value + Sync,
     {
         let t0 = Instant::now();
-        let nsh = cfg.shards.min(cfg.cases.max(1) as usize).max(1);
-        let per = cfg.cases / nsh as u64;
-        let rem = cfg.cases % nsh as u64;
+        let total = scaled(cfg.cases);
+        let nsh = cfg.shards.min(total.max(1) as usize).max(1);
+        let per = total / nsh as u64;
+        let rem = total % nsh as u64;
         let stop = AtomicBool::new(false);
         let known: Vec<KnownFinding> = self.known.clone();
         let seed = self.seed;
@@ -650,6 +665,12 @@ impl Ctx {
         B: Fn(&C) -> Value + Sync,
     {
         let t0 = Instant::now();
+        // a scale < 1 evaluates every k-th index only (and the stream is then not exhaustive)
+        let stride = (1.0 / env_scale()).round().max(1.0) as u64;
+        let full_n = n;
+        let n = (full_n + stride - 1) / stride;
+        let exhaustive = exhaustive && stride == 1;
+        let make = |i: u64| make(i * stride);
         let next = AtomicU64::new(0);
         let min_fail = AtomicU64::new(u64::MAX);
         let chunk = (n / (NSHARDS as u64 * 64)).clamp(1, 4096);
@@ -774,6 +795,7 @@ impl Ctx {
                 return;
             }
             let n = s.classes.get(class).copied().unwrap_or(0);
+            let min = if env_scale() < 1.0 { ((min as f64) * env_scale() * 0.5).floor() as u64 } else { min };
             if n < min {
                 self.unhealthy.push(format!("stream {} class {}: {} < required {}", stream, class, n, min));
             }
@@ -813,6 +835,8 @@ impl Ctx {
         coverage.insert("classes".into(), Value::Object(classes));
         coverage.insert("streams".into(), serde_json::to_value(&self.streams).unwrap());
         coverage.insert("excluded_known".into(), json!(self.excluded_known));
+        coverage.insert("case_scale".into(), json!(env_scale()));
+        coverage.insert("build_profile".into(), json!(if cfg!(debug_assertions) { "dbgchk (espada opt-level 0, overflow checks and debug assertions on)" } else { "release" }));
         coverage.insert("known_findings_reported".into(), json!(self.known_hits));
         coverage.insert("generator_health_problems".into(), json!(self.unhealthy));
         coverage.insert(
@@ -834,7 +858,8 @@ impl Ctx {
         });
         let dir = format!("{}/evidence", verif_dir());
         let _ = std::fs::create_dir_all(&dir);
-        let path = format!("{}/{}.json", dir, self.prop);
+        let suffix = std::env::var("VERIF_EVIDENCE_SUFFIX").unwrap_or_default();
+        let path = format!("{}/{}{}.json", dir, self.prop, suffix);
         if let Err(e) = std::fs::write(&path, serde_json::to_string_pretty(&ev).unwrap()) {
             eprintln!("cannot write evidence {}: {}", path, e);
             return 2;
